@@ -3,6 +3,7 @@
   handed (numpy's generator is outside the proof).
 -/
 import PgmVerif.Proofs.VE
+import PgmVerif.Proofs.Sample
 import Mathlib.Tactic.FieldSimp
 namespace PgmVerif
 open Factor
@@ -57,6 +58,84 @@ theorem C07_zero_mass (cpds : List Factor) (c : Factor) (hc : c ∈ cpds) (a : A
 theorem C07_forward_step (done : List Factor) (c : Factor) (a : Asg) :
     jointDen (done ++ [c]) a = jointDen done a * c.den a := by
   rw [jointDen_append, jointDen_cons, jointDen_nil, mul_one]
+
+/-! ### the law of the whole sampler (Proofs/Sample.lean) -/
+
+/-- **forward sampling follows the joint**: composing the per-variable draws in a topological order
+    gives a law whose outcomes are exactly the rows that assign each variable one of its states,
+    each exactly once, with mass Π_i CPD_i(row) = joint(row) -/
+theorem C07_forward_law (K : Var → Nat) (L : List (Var × Factor)) (a0 : Asg) (hL : Topo L) :
+    (∀ o ∈ forwardLaw K L [(a0, 1)], o.2 = jointDen (L.map Prod.snd) o.1 ∧
+        ∀ w, w ∉ L.map Prod.fst → o.1 w = a0 w) ∧
+    (∀ b : Asg, (∀ w, w ∉ L.map Prod.fst → b w = a0 w) → (∀ w ∈ L.map Prod.fst, b w < K w) →
+        (b, jointDen (L.map Prod.snd) b) ∈ forwardLaw K L [(a0, 1)]) ∧
+    ((forwardLaw K L [(a0, 1)]).map Prod.fst).Nodup := by
+  refine ⟨?_, ?_, forwardLaw_nodup K L a0 hL⟩
+  · intro o ho
+    obtain ⟨o0, h0, hm, hag⟩ := forwardLaw_mass K L _ hL o ho
+    simp only [List.mem_singleton] at h0
+    subst h0
+    exact ⟨by rw [hm]; ring, hag⟩
+  · intro b hb hK
+    obtain ⟨q, hq⟩ := forwardLaw_complete K L _ hL (a0, 1) List.mem_cons_self b hb hK
+    obtain ⟨o0, h0, hm, _⟩ := forwardLaw_mass K L _ hL _ hq
+    have h0' := List.mem_singleton.mp h0
+    subst h0'
+    have : q = jointDen (L.map Prod.snd) b := by simpa using hm
+    rw [← this]; exact hq
+
+/-- **rejection sampling**: the accepted outcomes are exactly the forward outcomes that agree with
+    the evidence, with their joint masses — so the accepted rows follow joint(row)/P(evidence), the
+    posterior, and always agree with the evidence -/
+theorem C07_rejection_law (K : Var → Nat) (L : List (Var × Factor)) (a0 : Asg) (hL : Topo L)
+    (ev : List (Var × Nat)) (o : Asg × Rat)
+    (ho : o ∈ (forwardLaw K L [(a0, 1)]).filter (fun o => ev.all (fun e => o.1 e.1 == e.2))) :
+    o.2 = jointDen (L.map Prod.snd) o.1 ∧ ∀ e ∈ ev, o.1 e.1 = e.2 := by
+  obtain ⟨h1, h2⟩ := List.mem_filter.mp ho
+  refine ⟨((C07_forward_law K L a0 hL).1 o h1).1, ?_⟩
+  intro e he
+  have := List.all_eq_true.mp h2 e he
+  simpa using this
+
+theorem jointDen_filter_pairs (P : Var × Factor → Bool) : ∀ (L : List (Var × Factor)) (a : Asg),
+    jointDen (L.map Prod.snd) a =
+      jointDen ((L.filter P).map Prod.snd) a * jointDen ((L.filter (fun p => !P p)).map Prod.snd) a
+  | [], a => by simp [jointDen_nil]
+  | p :: rest, a => by
+    have ih := jointDen_filter_pairs P rest a
+    by_cases h : P p = true
+    · simp only [List.map_cons, List.filter_cons, h, if_true, Bool.not_true, Bool.false_eq_true, if_false, jointDen_cons]
+      rw [ih]; ring
+    · have h' : P p = false := by simpa using h
+      simp only [List.map_cons, List.filter_cons, h', Bool.false_eq_true, if_false, Bool.not_false, if_true, jointDen_cons]
+      rw [ih]; ring
+
+/-- **likelihood weighting, whole sampler**: every weighted sample carries the evidence values, its
+    weight is the product of the evidence variables' CPD entries given the sampled parents, and
+    proposal mass × weight = joint(row) -/
+theorem C07_lw_law (K : Var → Nat) (ev : Var → Option Nat) (L : List (Var × Factor)) (a0 : Asg) (hL : Topo L)
+    (o : Asg × Rat × Rat) (ho : o ∈ lwLaw K ev L [(a0, 1, 1)]) :
+    o.2.2 = jointDen ((L.filter (fun p => (ev p.1).isSome)).map Prod.snd) o.1 ∧
+    o.2.1 * o.2.2 = jointDen (L.map Prod.snd) o.1 ∧
+    (∀ p ∈ L, ∀ e, ev p.1 = some e → o.1 p.1 = e) := by
+  obtain ⟨o0, h0, hw, hm, _, hev⟩ := lwLaw_spec K ev L _ hL o ho
+  simp only [List.mem_singleton] at h0
+  subst h0
+  refine ⟨by rw [hw]; ring, ?_, hev⟩
+  rw [hw, hm, jointDen_filter_pairs (fun p => (ev p.1).isSome) L o.1]
+  ring
+
+/-- non-vacuity: a two-node network A → B in topological order -/
+example : Topo [(0, Factor.mk [0] [2] #[1/2, 1/2]), (1, Factor.mk [1, 0] [2, 2] #[1/4, 3/4, 3/4, 1/4])] := by
+  refine ⟨?_, ?_, trivial⟩
+  · intro q hq
+    simp only [List.mem_singleton] at hq
+    subst hq
+    decide
+  · intro q hq; cases hq
+
+example : (forwardLaw (fun _ => 2) [(0, Factor.mk [0] [2] #[1/2, 1/2])] [((fun _ => 0), 1)]).length = 2 := by
+  simp [forwardLaw, extendLaw, List.range_succ]
 
 example : jointDen [Factor.mk [0] [2] #[1/2, 1/2]] (fun _ => 0) = 1/2 := by
   simp [jointDen, prodR, Factor.den, ravel]
